@@ -6,6 +6,7 @@ package ssync
 
 import (
 	"fmt"
+	"runtime"
 	"sync"
 	"time"
 
@@ -18,7 +19,11 @@ type Locker = sync.Locker
 // Pool, Map and WaitGroup-free helpers that do not block are passed through.
 type Pool = sync.Pool
 
+// poll is the fallback used with no active run and in free mode (teardown): it
+// retries with exponential back-off on the (fake) clock. Once the run has been
+// declared dead the goroutine ends instead of polling forever.
 func poll(try func() bool) {
+	d := time.Microsecond
 	for {
 		simrt.Lock()
 		ok := try()
@@ -26,7 +31,13 @@ func poll(try func() bool) {
 		if ok {
 			return
 		}
-		time.Sleep(time.Microsecond)
+		if simrt.Dead() {
+			runtime.Goexit()
+		}
+		time.Sleep(d)
+		if d < time.Second {
+			d *= 2
+		}
 	}
 }
 
